@@ -1,4 +1,5 @@
 import TwistedModel.Reactor.Looping
+import TwistedProps.C10.Gen
 /-!
 C10 — LoopingCall keeps cadence without overlap and counts skipped intervals.
 
@@ -7,6 +8,11 @@ All theorems quantify over every script of the looped function, every history of
 `start / advance / fire / fail / stop / reset` operations that satisfies the decidable
 well-formedness predicate `HistOk` (positive or negative — never zero — intervals, advances ≥ 0,
 `start` not issued while the function's Deferred is unfired), and every next operation.
+
+`gen_*`: the arithmetic kernels `_intervalOf` and `howLong` are regenerated from task.py on every run
+(`Generated.Looping`, harness/py2lean.py) and proved equal to the model's functions
+(`TwistedProps/C10/Gen.lean`); the wrappers below restate the boundary arithmetic and the skip count
+directly over the generated definitions.
 -/
 namespace TwistedProps.C10
 open Twisted.Reactor.Looping
@@ -75,9 +81,39 @@ theorem hl_eq (I st w : Int) (hI : 0 < I) : w + hl I st w = nextBoundary st I w 
   simp only [hl, h2, h3]
   exact nb_eq _ _ _
 
+/-! ## the translator-regenerated kernels (see `TwistedProps/C10/Gen.lean`) -/
+
+/-- generated `_intervalOf` = model `intervalOf` -/
+theorem gen_intervalOf (s : St) (t : Int) :
+    Generated.Looping.intervalOf s.starttime s.interval t = intervalOf s t := gen_intervalOf_eq s t
+
+/-- generated `howLong` = model `howLong` for every interval `start()` accepts -/
+theorem gen_howLong (s : St) (when : Int) (hI : 0 ≤ s.interval) :
+    Generated.Looping.howLong s.starttime s.interval when = howLong s when := gen_howLong_eq s when hI
+
+/-- `_scheduleFrom(when)` arms the call at `now + ` the generated `howLong` -/
+theorem gen_scheduleFrom (s : St) (when : Int) (hI : 0 ≤ s.interval) :
+    (scheduleFrom s when).call = some (s.now + Generated.Looping.howLong s.starttime s.interval when) :=
+  gen_scheduleFrom_eq s when hI
+
+/-- no drift, over the generated definition: the delay computed by task.py's `howLong` leads from `when`
+    exactly to the first boundary `starttime + k*interval` strictly after `when` -/
+theorem gen_howLong_next_boundary (st I w : Int) (hI : 0 < I) :
+    w + Generated.Looping.howLong st I w = nextBoundary st I w := by
+  have h := gen_howLong_eq { interval := I, starttime := st } w (Int.le_of_lt hI)
+  simp only at h
+  rw [h, howLong_def]
+  exact hl_eq I st w hI
+
 /-! ## the pieces of `__call__` -/
 
 def countOf (s : St) : Int := intervalOf s s.now - intervalOf s (lastTime s)
+
+/-- the count handed to the user function is the difference of the GENERATED `_intervalOf` at `now` and at
+    `lastTime` (the two `self._intervalOf(..)` calls of `counter()`) -/
+theorem gen_countOf (s : St) :
+    countOf s = Generated.Looping.intervalOf s.starttime s.interval s.now
+                - Generated.Looping.intervalOf s.starttime s.interval (lastTime s) := rfl
 
 theorem counter_pos (s : St) (hI : 0 < s.interval) (hc : 0 < countOf s) :
     counter s = ({ s with realLastTime := some s.now }, some (countOf s)) := by
